@@ -6,6 +6,8 @@ pub mod c08;
 pub mod c12;
 pub mod c13;
 pub mod c14;
+pub mod c15;
+pub mod c19;
 
 pub type ReplayResult = Result<Vec<String>, (Vec<String>, String, String)>;
 
@@ -15,6 +17,8 @@ pub fn run(prop: &str, opts: &Opts) -> Vec<Report> {
         "C12" => c12::run(opts),
         "C13" => c13::run(opts),
         "C14" => c14::run(opts),
+        "C15" => c15::run(opts),
+        "C19" => c19::run(opts),
         _ => crate::explore::machinery(&format!("unknown property {}", prop)),
     }
 }
@@ -25,6 +29,8 @@ pub fn replay(prop: &str, case: &Value) -> ReplayResult {
         "C12" => c12::replay(case),
         "C13" => c13::replay(case),
         "C14" => c14::replay(case),
+        "C15" => c15::replay(case),
+        "C19" => c19::replay(case),
         _ => crate::explore::machinery(&format!("unknown property {}", prop)),
     }
 }
